@@ -10,6 +10,7 @@ import (
 	"os"
 	"path/filepath"
 	"strings"
+	"sync"
 	"time"
 
 	"github.com/bmeg/grip/config"
@@ -51,6 +52,9 @@ type GripServer struct {
 	sources  map[string]gripper.GRIPSourceClient
 	baseDir  string
 	jStorage jobstorage.JobStorage
+	//stateMu guards graphMap and schemas, which edit requests replace or update
+	//while other requests read them
+	stateMu sync.RWMutex
 }
 
 // NewGripServer initializes a GRPC server to connect to the graph store
@@ -141,6 +145,8 @@ func StartDriver(d config.DriverConfig, sources map[string]gripper.GRIPSourceCli
 }
 
 func (server *GripServer) getGraphDB(graph string) (gdbi.GraphDB, error) {
+	server.stateMu.RLock()
+	defer server.stateMu.RUnlock()
 	if driverName, ok := server.graphMap[graph]; ok {
 		if gdb, ok := server.dbs[driverName]; ok {
 			return gdb, nil
